@@ -197,12 +197,13 @@ static void new_world(Loop *loop) {
 
 // watchdog: a lost "cancel makes every blocking call return" turns cleanup() into an endless loop that
 // also grows the waiter queues; the case is then reported as CRASH exit:96 instead of eating the machine
-static const unsigned kCaseSeconds = 10;
+static unsigned kCaseSeconds = 2;   // C18_WATCHDOG overrides (the valgrind run uses a longer one)
 static void on_alarm(int) { static const char m[] = "C18 harness watchdog: case did not finish\n"; (void)!write(2, m, sizeof(m) - 1); _exit(96); }
 
 int main() {
     struct rlimit rl = { 3ull << 30, 3ull << 30 };
     setrlimit(RLIMIT_AS, &rl);
+    if (const char *e = getenv("C18_WATCHDOG")) { int v = atoi(e); if (v > 0) kCaseSeconds = (unsigned)v; }
     signal(SIGALRM, on_alarm);
     alarm(kCaseSeconds);
     LogOutput_Disable();
